@@ -217,6 +217,9 @@ mtbl_writer_add(struct mtbl_writer *w,
 		const uint8_t *val, size_t len_val)
 {
 	assert(!w->closed);
+	/* Entry headers store key and value lengths as 32-bit varints. */
+	if (len_key > UINT32_MAX || len_val > UINT32_MAX)
+		return (mtbl_res_failure);
 	if (w->m.count_entries > 0) {
 		if (!(bytes_compare(key, len_key,
 				    ubuf_data(w->last_key), ubuf_size(w->last_key)) > 0))
